@@ -27,6 +27,7 @@ func OnImplements(t reflect.Type, iface reflect.Type, input reflect.Value, op Tr
 	var newVal reflect.Value
 
 	wasPointer := false
+	origT := t
 
 	if t.Kind() == reflect.Ptr {
 		wasPointer = true
@@ -49,8 +50,13 @@ func OnImplements(t reflect.Type, iface reflect.Type, input reflect.Value, op Tr
 		return input, err
 	}
 
-	if v.IsNil() {
-		return reflect.Zero(t), nil
+	switch v.Kind() {
+	case reflect.Ptr, reflect.Map, reflect.Slice, reflect.Interface, reflect.Chan, reflect.Func:
+		if v.IsNil() {
+			// unset: the zero value of the type we were asked about
+			// (a nil pointer if that was a pointer type)
+			return reflect.Zero(origT), nil
+		}
 	}
 
 	if implemented == implementsAsPointer && !wasPointer {
